@@ -336,7 +336,7 @@ def check_counts(ad, prefix, case_of, rng):
 # =====================================================================
 # Gillespie_complex_contagion (C15)
 # =====================================================================
-COMPLEX_MODELS = ("sir_rates", "sis_rates", "threshold", "longrange", "chooser", "nodew")
+COMPLEX_MODELS = ("sir_rates", "sis_rates", "threshold", "longrange", "chooser", "nodew", "binary01", "seir_rates")
 
 
 def _nbrs(G, node):
@@ -406,6 +406,33 @@ def make_complex_model(name, params):
         def choose(G, node, status, parameters):
             return "I" if status[node] == "S" else "S"
         return rate, choose, (lambda G, node, status, parameters: _two_hop(G, node)), ["S", "I"]
+    if name == "binary01":
+        # integer statuses 1 (active) / 0 (inactive): the chooser's answer 0 is falsy
+        def rate(G, node, status, parameters):
+            tau, gamma = parameters[0], parameters[1]
+            if status[node] == 1:
+                return gamma
+            return tau * (0.25 + len([x for x in G.neighbors(node) if status[x] == 1]))
+
+        def choose(G, node, status, parameters):
+            return 0 if status[node] == 1 else 1
+        return rate, choose, (lambda G, node, status, parameters: _nbrs(G, node)), [0, 1]
+    if name == "seir_rates":
+        # several stages with different rates: after an event many nodes can share the same rate
+        def rate(G, node, status, parameters):
+            tau, gamma = parameters[0], parameters[1]
+            s_ = status[node]
+            if s_ == "E":
+                return 2.0 * gamma
+            if s_ == "I":
+                return gamma
+            if s_ == "S":
+                return tau * len([x for x in G.neighbors(node) if status[x] == "I"])
+            return 0
+
+        def choose(G, node, status, parameters):
+            return {"S": "E", "E": "I", "I": "R"}[status[node]]
+        return rate, choose, (lambda G, node, status, parameters: _nbrs(G, node)), ["S", "E", "I", "R"]
     if name == "chooser":
         def rate(G, node, status, parameters):
             tau, gamma = parameters[0], parameters[1]
@@ -465,11 +492,12 @@ def gen_complex_case(rng):
     gamma = rng.choice([0.3, 0.7, 1.3, 0.1, 1.0, 0.0])
     params = [tau, gamma, rng.choice([1, 1, 2, 3])]
     _, _, _, sts = make_complex_model(model, params)
-    seeds = [s for s in sts if s not in ("S", "R")]
+    seeds = [s for s in sts if s not in ("S", "R", 0)]
+    base = "S" if "S" in sts else sts[0]
     IC = []
     for i in range(n):
         c = rng.random()
-        IC.append(rng.choice(seeds) if c < 0.4 else ("S" if c < 0.9 else sts[-1]))
+        IC.append(rng.choice(seeds) if c < 0.4 else (base if c < 0.9 else sts[-1]))
     ret = list(sts)
     rng.shuffle(ret)
     return {"sim": "Gillespie_complex_contagion", "graph": spec, "model": model, "params": params,
